@@ -276,29 +276,190 @@ func init() {
 // merges) is drawn from the simulator's PRNG statement by statement instead of being whatever
 // the Go runtime does.
 
-func schedGen(base func(r *Rand, tier, profile string) *Case) func(r *Rand, tier, profile string) *Case {
+// schedFocus: per property, the source files whose statements are preferred as scheduling points.
+var schedFocus = map[string][]string{
+	"C05": {"wasp/packets.go", "wasp/packets.go", "wasp/publish.go"},
+	"C12": {"wasp/conn.go", "wasp/conn.go", "wasp/conn.go", "wasp/distributed/sessions.go"},
+	"C13": {"wasp/conn.go", "wasp/nodes.go", "wasp/packets.go"},
+	"C11": {"wasp/conn.go", "wasp/packets.go", "wasp/distributed/sessions.go", "wasp/distributed/subscriptions.go"},
+	"C03": {"wasp/writer.go", "wasp/ack/queue.go", "wasp/packets.go"},
+	"C14": {"wasp/publish.go", "wasp/packets.go"},
+}
+
+func schedGen(id string, base func(r *Rand, tier, profile string) *Case, tweak func(r *Rand, c *Case)) func(r *Rand, tier, profile string) *Case {
 	return func(r *Rand, tier, profile string) *Case {
 		c := base(r, tier, profile)
 		if c.Knobs == nil {
 			c.Knobs = map[string]int64{}
 		}
 		c.Knobs["sched"] = 1
+		if r.Bool(0.6) {
+			c.Knobs["sched_focus"] = int64(1 + r.Intn(64))        // index into the list of instrumented files
+			if fs := schedFocus[id]; len(fs) > 0 && r.Bool(0.8) { // mostly where this property's requests meet
+				c.Knobs["sched_focus"] = focusKnob(r.Pick(fs))
+			}
+		}
+		if tweak != nil {
+			tweak(r, c)
+		}
 		return c
 	}
 }
 
-func registerSched(id string, base func(r *Rand, tier, profile string) *Case, run func(t *testing.T, c *Case) *Outcome, quickS, thoroughS int) {
-	register(&Check{ID: id, Variant: "sched", Level: "exploration", Build: "lockstep", Gen: schedGen(base), Run: run, QuickS: quickS, ThoroughS: thoroughS,
+// sameTurn puts neighbouring requests of different clients into one driver turn, where the
+// oracle of the scenario does not depend on their order (it works on stamps).
+func sameTurn(kinds map[string]bool, p float64) func(r *Rand, c *Case) {
+	return func(r *Rand, c *Case) {
+		for i := 0; i+1 < len(c.Steps); i++ {
+			a, b := &c.Steps[i], &c.Steps[i+1]
+			if kinds[a.K] && kinds[b.K] && a.C != b.C && r.Bool(p) {
+				a.W = true
+				b.At = 0
+			}
+		}
+	}
+}
+
+// takeoverInTurn: the earlier session of a takeover chain loses its link (or disconnects) in the
+// same turn in which its successor connects.
+func takeoverInTurn(r *Rand, c *Case) {
+	var out []Step
+	prev := -1
+	for _, s := range c.Steps {
+		if s.K == "connect" && s.S == "dup" {
+			if prev >= 0 && r.Bool(0.4) {
+				end := Step{K: "cut", C: prev, At: s.At, W: true}
+				if r.Bool(0.4) {
+					end = Step{K: "pkt", C: prev, S: "disconnect", At: s.At, W: true}
+				}
+				out = append(out, end)
+				s.At = 0
+			}
+			prev = s.C
+		}
+		out = append(out, s)
+	}
+	c.Steps = out
+}
+
+// genC05Conc: several publishers hand in QoS 1 publishes in the same driver turn while one log
+// write (or one remote node) fails: each publish is acknowledged iff its own writes succeeded,
+// whatever happened to the others.
+func genC05Conc(r *Rand, tier, profile string) *Case {
+	c := &Case{Profile: "inbound", Knobs: map[string]int64{"manual_pubrel": 1}}
+	nodes := r.PickInt([]int{1, 1, 2})
+	c.Knobs["nodes"] = int64(nodes)
+	var ts []tstep
+	t := int64(1)
+	ns := r.Range(1, 2)
+	for i := 1; i <= ns; i++ {
+		t += 10
+		ts = append(ts, tstep{t, Step{K: "connect", C: i, N: r.Intn(nodes), S: fmt.Sprintf("s%d", i), U: "u", T: "p", I: 3000}})
+		ts = append(ts, tstep{t + 5, Step{K: "sub", C: i, L: []string{"i/#"}, QL: []int{0}, I: 1}})
+	}
+	np := r.Range(2, 3)
+	for p := 0; p < np; p++ {
+		t += 10
+		ts = append(ts, tstep{t, Step{K: "connect", C: 10 + p, N: r.Intn(nodes), S: fmt.Sprintf("p%d", p), U: "u", T: "p", I: 3000}})
+	}
+	t += 50
+	ts = append(ts, tstep{t, Step{K: "settle"}})
+	t += settleDur + 50
+	tagN := 0
+	pid := map[int]int{}
+	for round := r.Range(1, 3); round > 0; round-- {
+		if r.Bool(0.8) {
+			ts = append(ts, tstep{t, Step{K: "appendfail", N: r.Intn(nodes), I: 1}})
+			t++
+		}
+		k := r.Range(2, np)
+		perm := r.Perm(np)
+		for j := 0; j < k; j++ {
+			p := 10 + perm[j]
+			pid[p]++
+			tagN++
+			ts = append(ts, tstep{t, Step{K: "pub", C: p, T: "i/x", S: fmt.Sprintf("i%d", tagN), Q: 1, I: int64(pid[p]), W: j+1 < k}})
+		}
+		t += int64(r.Range(300, 1500))
+	}
+	ts = append(ts, tstep{t, Step{K: "sleep", I: 2500}})
+	c.Steps = mergeTimelines(ts)
+	return c
+}
+
+// genC12Race: a short takeover in which the predecessor's connection ends (or pings, or does
+// nothing) in the very turn in which the successor's CONNECT arrives, mostly on the same node.
+func genC12Race(r *Rand, tier, profile string) *Case {
+	c := &Case{Profile: "takeover", Knobs: map[string]int64{}}
+	nodes := r.PickInt([]int{1, 1, 2})
+	c.Knobs["nodes"] = int64(nodes)
+	var ts []tstep
+	t := int64(1)
+	ts = append(ts, tstep{t, Step{K: "connect", C: 0, N: 0, S: "witness", U: "u", T: "p", I: 3000}})
+	chain := r.Range(2, 3)
+	node := r.Intn(nodes)
+	for i := 1; i <= chain; i++ {
+		t += int64(r.Range(300, 1200))
+		if r.Bool(0.25) {
+			node = r.Intn(nodes)
+		}
+		if i > 1 {
+			switch r.Intn(4) {
+			case 0:
+				ts = append(ts, tstep{t, Step{K: "cut", C: i - 1, W: true}})
+			case 1:
+				ts = append(ts, tstep{t, Step{K: "pkt", C: i - 1, S: "disconnect", W: true}})
+			case 2:
+				ts = append(ts, tstep{t, Step{K: "pkt", C: i - 1, S: "pingreq", W: true}})
+			}
+		}
+		ts = append(ts, tstep{t, Step{K: "connect", C: i, N: node, S: "dup", U: "u", T: "p", I: 30, G: i > 1 && nodes > 1 && r.Bool(0.5)}})
+		ts = append(ts, tstep{t + int64(r.Range(5, 100)), Step{K: "sub", C: i, L: []string{fmt.Sprintf("k/%d/#", i), "k/all"}, QL: []int{r.Intn(2), 0}, I: 1}})
+	}
+	t += 1500
+	for i := 1; i <= chain; i++ {
+		ts = append(ts, tstep{t + int64(i), Step{K: "pkt", C: i, S: "pingreq"}})
+	}
+	t += 300
+	ts = append(ts, tstep{t, Step{K: "settle"}})
+	t += settleDur + 20
+	for i := 1; i <= chain; i++ {
+		ts = append(ts, tstep{t, Step{K: "pub", C: 0, T: fmt.Sprintf("k/%d/z", i), S: fmt.Sprintf("late%d", i), Q: 0}})
+		t += 15
+	}
+	ts = append(ts, tstep{t, Step{K: "pub", C: 0, T: "k/all", S: "lateall", Q: 0}})
+	ts = append(ts, tstep{t + 300, Step{K: "pkt", C: chain, S: "pingreq"}})
+	ts = append(ts, tstep{t + 400, Step{K: "sleep", I: 800}})
+	c.Steps = mergeTimelines(ts)
+	return c
+}
+
+func registerSched(id string, base func(r *Rand, tier, profile string) *Case, tweak func(r *Rand, c *Case), run func(t *testing.T, c *Case) *Outcome, quickS, thoroughS int) {
+	register(&Check{ID: id, Variant: "sched", Level: "exploration", Build: "lockstep", Gen: schedGen(id, base, tweak), Run: run, QuickS: quickS, ThoroughS: thoroughS,
 		Rule: "the scenarios and oracle of the property's main E1 check executed on the statement-instrumented build under controlled goroutine scheduling: every broker goroutine (handlers, publish workers, RPC calls, sweeps, gossip merges) is released by the simulator's PRNG one statement or one budget of statements at a time; distinct by hash of (scenario, schedule)",
 		Real: e1Real, Stub: append([]string{"goroutine scheduling inside the brokers: the simulator's PRNG over parked goroutines (DESIGN 2.1b)"}, e1Stub...),
 		Assume: []string{"same assumptions as the property's main E1 check"}})
 }
 
 func init() {
-	registerSched("C03", genC03, runC03, 15, 240)
-	registerSched("C05", genC05, runC05, 15, 240)
-	registerSched("C11", genC11, runC11, 15, 240)
-	registerSched("C12", genC12, runC12, 15, 240)
-	registerSched("C13", genC13, runC13, 15, 240)
-	registerSched("C14", genC14, runC14, 15, 240)
+	registerSched("C03", genC03, nil, runC03, 15, 240)
+	registerSched("C05", func(r *Rand, tier, profile string) *Case {
+		if r.Bool(0.5) {
+			return genC05Conc(r, tier, profile)
+		}
+		c := genC05(r, tier, profile)
+		sameTurn(map[string]bool{"pub": true, "pkt": true}, 0.5)(r, c)
+		return c
+	}, nil, runC05, 15, 240)
+	registerSched("C11", genC11, nil, runC11, 15, 240)
+	registerSched("C12", func(r *Rand, tier, profile string) *Case {
+		if r.Bool(0.7) {
+			return genC12Race(r, tier, profile)
+		}
+		c := genC12(r, tier, profile)
+		takeoverInTurn(r, c)
+		return c
+	}, nil, runC12, 25, 300)
+	registerSched("C13", genC13, nil, runC13, 15, 240)
+	registerSched("C14", genC14, nil, runC14, 15, 240)
 }
